@@ -116,6 +116,53 @@ theorem one_faulty_cannot_block (c : Crypto G) (env : Env) (hsrc : FromSource en
         exact ⟨p.1, p.2, hw, hpk⟩
   exact ⟨hfinished.ending, hfinished.gen, sigOk_groupSig c env sh gs hl _, sigOk_groupSig c env sh gs hl _⟩
 
+/-- **one_faulty_cannot_block_after_cast**: the same for a round entered with the ids round0 had
+already processed (the cast message's id, `Proc.initWith`): the state the life cycle actually hands
+to round1. The honest messages' ids must be new (they are hashes of different bytes). -/
+theorem one_faulty_cannot_block_after_cast (c : Crypto G) (env : Env) (hsrc : FromSource env)
+    (hex : env.blockExists = false) (hn : 0 < env.groupSize)
+    (sh : Id → Data → G) (gs : Data → G) (hl : Lawful c env sh gs)
+    (processed : List MsgId) (future : List (VMsg G)) (ws : List (Wire G))
+    (honest : List (Id × MsgId)) (hnd : (honest.map (·.1)).Nodup)
+    (hlen : groupK env.groupSize ≤ honest.length)
+    (hmem : ∀ p ∈ honest, p.1 ∈ env.pkKnown ∧ Wire.ok (honestMsg env sh p.1 p.2) ∈ ws ∧
+      p.2 ∉ processed ++ future.map (·.mid)) :
+    let pr := Proc.run c env (Proc.initWith c env processed future) ws
+    pr.ending = some true ∧
+    pr.party.rs.generated = some (some (gs env.hash), some (gs env.prevRandom)) ∧
+    sigOk c env.hash (some (gs env.hash)) = true ∧ sigOk c env.prevRandom (some (gs env.prevRandom)) = true := by
+  intro pr
+  have hb := fromSource_binds hsrc
+  have hk := groupK_pos hn
+  have hfinished : Finished env gs pr := by
+    rcases initWith_state c env hb hex hk sh gs hl processed future with hc | hf | hr
+    · -- collecting: count the honest senders
+      have hrun := run_collecting c env hb hex sh gs hl (processed ++ future.map (·.mid)) ws _ hc
+      rcases hrun.1 with hcol | hfin
+      · exfalso
+        have hsub : (honest.map (·.1)) ⊆ (pr.party.rs.gSign.witness.map (·.1)) := by
+          intro i hi
+          obtain ⟨p, hp, rfl⟩ := List.mem_map.mp hi
+          obtain ⟨hpk, hw, hmid⟩ := hmem p hp
+          rcases hrun.2 p.1 p.2 hw hpk hmid with he | hhas
+          · have : pr.ending = none := hcol.ending
+            rw [this] at he; cases he
+          · exact (has_eq_true_iff _ _).mp hhas
+        have h1 := List.Nodup.length_le_of_subset hnd hsub
+        have h2 : pr.party.rs.gSign.witness.length < groupK env.groupSize := (hcol.inv2.open_ hcol.cp).1
+        simp only [List.length_map] at h1
+        omega
+      · exact hfin
+    · exact run_finished c env gs ws _ hf
+    · -- the party recovered inside round1.Start; the first honest message makes it advance
+      apply run_ready c env hex sh gs hl ws _ hr
+      cases honest with
+      | nil => simp at hlen; omega
+      | cons p rest =>
+        obtain ⟨hpk, hw, _⟩ := hmem p (by simp)
+        exact ⟨p.1, p.2, hw, hpk⟩
+  exact ⟨hfinished.ending, hfinished.gen, sigOk_groupSig c env sh gs hl _, sigOk_groupSig c env sh gs hl _⟩
+
 /-- **byzantine_cannot_cause_error** (safety form of clause 3): as long as the block is not on the
 chain, no sequence of packets whatsoever — and no stored early messages — makes the party end with an
 error: it keeps collecting or ends `done`. (The only error ending of the signing round is "block already
